@@ -19,8 +19,12 @@ Is(e) == l <= Len(T) /\ E.a = e
 Adv == l' = l + 1 /\ UNCHANGED tid
 NoFile == [ok |-> FALSE, mem |-> EmptyMem, start |-> NoAddr, base |-> <<0, 0>>, fmt |-> "none", lo |-> 0, hi |-> 0 - 1]
 \* the logged projection of the real objects equals the (primed) spec state; the absolute address of an image without a
-\* single byte is not asserted (the property speaks about where bytes are)
-PostMatchesT(F, TB) == \A n \in Ids(F) : E.len[n] = TB.len[n] /\ (TB.len[n] > 0 => E.abs[n] = Abs(F, n))
+\* single byte is not asserted (the property speaks about where bytes are), nor is the address of an image below an image without
+\* a single byte (an image with bytes inside an empty one: only possible in front of it, at a negative offset - an invalid tree, for
+\* which the property defines the verdict of validate() and nothing else)
+RECURSIVE Inhabited(_, _, _)
+Inhabited(F, TB, n) == TB.len[n] > 0 /\ (F[n].par = 0 \/ Inhabited(F, TB, F[n].par))
+PostMatchesT(F, TB) == \A n \in Ids(F) : E.len[n] = TB.len[n] /\ (Inhabited(F, TB, n) => E.abs[n] = Abs(F, n))
 PostMatches(F) == Len(E.len) = Len(F) /\ Len(E.abs) = Len(F) /\ PostMatchesT(F, Tab(F))
 TInit == tid \in 1..Len(Traces) /\ l = 1 /\ Init /\ file = NoFile /\ TLCSet(tid, 1)
 Acyclic(ns) == \A k \in 1..Len(ns) : ns[k].par >= 0 /\ ns[k].par < k
